@@ -70,6 +70,7 @@ type Contract struct {
 	Inline        bool
 	Strict        bool
 	Trusted       bool
+	GoBodies      bool // "go-bodies": the body of a function started with `go` is executed (for its safety obligations) in the state at the go statement
 	ReflectValid  bool // "reflect-validity": reflect.Value methods are checked against the zero Value (see reflectHooks)
 	ModAny        bool // "modifies-anything": no frame is claimed; callers forget every component the body may write
 	AssumedFrame  bool // the modifies clauses are used by callers but not checked against this body (listed as an assumption)
@@ -279,6 +280,8 @@ func parseContractFile(path, pkgPath string) ([]*Contract, error) {
 			cur.ModAny = true
 		case "reflect-validity":
 			cur.ReflectValid = true
+		case "go-bodies":
+			cur.GoBodies = true
 		case "abstract":
 			cur.Abstract = true
 		case "allocates":
